@@ -396,6 +396,25 @@ class AExitUnit(TGUnit):
             return LoopSpec(self.wait_loop_inv, modifies=None, after_havoc=self.wait_after_havoc, gen_locals={"exc_val": self.gen_exc_val})
         return None
 
+    def loop_spec_by_shape(self, node, f):
+        """the wait loop recognised by its shape -- `while self._tasks:` around an `await self._on_completed_fut` -- so
+        that it keeps its invariant when an edit moves it into a helper method of the group"""
+        import ast
+
+        if not (isinstance(node, ast.While) and ast.unparse(node.test) == "self._tasks"):
+            return None
+        if not any(isinstance(n, ast.Await) and ast.unparse(n.value) == "self._on_completed_fut" for n in ast.walk(node)):
+            return None
+        return LoopSpec(self.wait_loop_inv, modifies=None, after_havoc=self.wait_after_havoc, gen_locals={"exc_val": self.gen_exc_val})
+
+    def wait_scope_of(self, ip, env, h):
+        """the wait scope: the local of that type where the loop sits in __aexit__ itself; in a helper, the current scope
+        of the running host task"""
+        try:
+            return ip.term(S.local_of_type(env, CS, "wait_scope"), CS)
+        except Unsupported:
+            return h.f("TaskState", "cancel_scope", S.tstate_of(h, ip.ctx.cur.t))
+
     def gen_exc_val(self, ip, v):
         """`exc_val` after any number of iterations of the wait loop: what it was before the loop, or a CancelledError
         caught while waiting (it replaces `None`, or a cancellation when the new one is a native one)"""
@@ -413,7 +432,7 @@ class AExitUnit(TGUnit):
         h = H(ip.st)
         s, cur = self.self_val.t, ip.ctx.cur.t
         c = scope(h, s)
-        ws = ip.term(S.local_of_type(env, CS, "wait_scope"), CS)
+        ws = self.wait_scope_of(ip, env, h)
         self.private_scopes = (ws,)
         if self.after_record is None:
             self.snapshot_record(ip)  # first evaluation = loop entry: the state after the first (suspension-free) part
@@ -439,7 +458,7 @@ class AExitUnit(TGUnit):
         s, cur = self.self_val.t, ip.ctx.cur.t
         for n, t in TG.assumed_terms(h, s, cur):
             ip.st.assume(t)
-        ws = ip.term(S.local_of_type(env, CS, "wait_scope"), CS)
+        ws = self.wait_scope_of(ip, env, h)
         for n, t in S.SCOPE.assumed_terms(h, ws, cur):
             ip.st.assume(t)
         self.unfold(ip, h)
@@ -1236,6 +1255,10 @@ class StartUnit(SpawnMixin, TGUnit):
         if hds:
             hd = hds[0]
             tag = exc.tag if getattr(exc, "tag", None) is not None else z3.BoolVal(False)
+            # end-state form (independent of how the code finds out): start() never re-raises while its child is still
+            # PENDING -- running with no cancellation requested -- unless the child has already called started() (it is
+            # a regular member of the group then)
+            ip.ctx.oblige(f"{nm}/post:start_never_re_raises_while_its_child_is_still_pending", z3.Or(status_spec(post, hd) != ST_PENDING, fstate(post, f_) == RESULT), "post")
             was_pending = getattr(self, "pending_at_failure", None)
             if was_pending is not None:
                 # the child had not finished when start() failed: it was cancelled and start() re-raises only after
